@@ -45,3 +45,13 @@ package deposit
 //@ callreq getDepositDomain: res(1, eth2util.NetworkToForkVersionBytes(network)) == nil && forall(i, 0, 4, i < len(res(0, eth2util.NetworkToForkVersionBytes(network))) ==> a1[i] == res(0, eth2util.NetworkToForkVersionBytes(network))[i])
 //@ ensures r1 == nil ==> ncalls(getDepositDomain) == 1
 //@ canary r1 != nil
+
+// DedupAmounts hands back its own slice: the caller's amounts (a definition's hashed deposit_amounts among them) are
+// neither reordered nor overwritten; the result holds each distinct amount once, ascending.
+//@ func DedupAmounts
+//@ props C12
+//@ newspine r0
+//@ assigns result
+//@ ensures forall(i, 0, len(result), exists(j, 0, len(amounts), amounts[j] == result[i]))
+//@ loop 1 invariant forall(i, 0, len(result), exists(j, 0, $i, amounts[j] == result[i]))
+
